@@ -72,8 +72,54 @@ def ctor_cases():
                         yield {"ctor": True, "is_buy": is_buy, "limit": limit, "volume": volume, "ttl": ttl, "price": price}
 
 
+def check_pred(spec):
+    """Order.is_expired(time) == (ttl is not None and placed_at + ttl < time), Exception when unplaced; Order.check_system_acceptable(agent) returns normally
+    exactly for the owner's unplaced, uncancelled order (AttributeError otherwise)"""
+    import warnings
+    with warnings.catch_warnings():
+        warnings.simplefilter("ignore")
+        o = Order(agent_id=1, market_id=2, is_buy=True, kind=LIMIT_ORDER, volume=1, price=10.0, ttl=spec["ttl"], placed_at=spec["placed_at"])
+    o.is_canceled = spec["canceled"]
+    try:
+        got = o.is_expired(spec["time"])
+        if spec["placed_at"] is None:
+            return f"is_expired({spec['time']}) of an unplaced order returned {got} instead of raising"
+        want = spec["ttl"] is not None and spec["placed_at"] + spec["ttl"] < spec["time"]
+        if bool(got) != want:
+            return f"is_expired({spec['time']}) = {got} for placed_at={spec['placed_at']}, ttl={spec['ttl']}: expected {want}"
+    except AssertionError:
+        raise
+    except Exception:
+        if spec["placed_at"] is not None:
+            return f"is_expired raised for a placed order (placed_at={spec['placed_at']})"
+    ok = spec["agent"] == 1 and spec["placed_at"] is None and not spec["canceled"]
+    try:
+        o.check_system_acceptable(spec["agent"])
+        if not ok:
+            return f"check_system_acceptable({spec['agent']}) accepted an order of agent 1 with placed_at={spec['placed_at']}, is_canceled={spec['canceled']}"
+    except AttributeError:
+        if ok:
+            return "check_system_acceptable refused the owner's unplaced, uncancelled order"
+    return None
+
+
+def pred_cases():
+    for ttl in (None, 1, 3):
+        for placed_at in (None, 0, 2):
+            for time in range(0, 8):
+                for canceled in (False, True):
+                    for agent in (1, 7):
+                        yield {"pred": True, "ttl": ttl, "placed_at": placed_at, "time": time, "canceled": canceled, "agent": agent}
+
+
 def search(seed, tier, obligation, hints):
     n = 0
+    if (obligation or "").startswith(("Order.is_expired", "Order.check_system_acceptable")):
+        for c in pred_cases():
+            n += 1
+            why = check_pred(c)
+            if why:
+                return {"found": True, "input": c, "observed": {"function": "Order predicates", "clause": why}, "witness_key": "Order.pred|" + why[:30], "cases": n, "exhaustive_scope": True}
     if (obligation or "").startswith("Order.__init__"):
         for c in ctor_cases():
             n += 1
@@ -89,5 +135,5 @@ def search(seed, tier, obligation, hints):
 
 
 def replay(inp):
-    why = check_ctor(inp) if inp.get("ctor") else check(inp)
+    why = check_pred(inp) if inp.get("pred") else check_ctor(inp) if inp.get("ctor") else check(inp)
     return {"violated": bool(why), "clause": why}
